@@ -532,6 +532,10 @@ def run(tier, procs=None, only=None):
     )
 
 
+# every real-library oracle of this property (each returns (reproduced, detail)); used to confirm structural facts that carry no replay of their own
+ALL_REPLAYS = [lambda c: replay_shape((2, 3, 5), 'utils')(c), lambda c: replay_shape((3, 4, 4), 'backend')(c), lambda c: replay_weight((3, 4, 5), 2, False, 'utils')(c), lambda c: replay_weight((3, 4, 5), 2, True, 'backend')(c)]
+
+
 def replay(data):
     info = data.get("info") or {}
     det = data.get("replay_detail") or {}
